@@ -8,5 +8,6 @@ import (
 func main() {
 	kit.Main(map[string]*kit.Spec{
 		"C16": histsim.C16(),
+		"C17": histsim.C17(),
 	})
 }
